@@ -46,7 +46,7 @@ CLAIMS = {
                      "lines, configuration, unread input, results) for the whole driver (feed, BOM, script injection, end). "
                      "And at the level of the executable driver (TokIR/ChunkExec.v): two chunkings through drive_flat - feed loops with "
                      "script injection, then end() - reach the same final machine and end() result whenever every feed call ended "
-                     "regularly (BOM flag clear). "
+                     "regularly, byte order mark handling included (except a first chunk that is U+FEFF alone). "
                      "Not proved, tied by differential runs in the check: for exact_errors = false the chunked-queue "
                      "interpreter with bulk reads agrees with the reference semantics up to merging of adjacent character "
                      "tokens and the fast path's missing per-character errors; the Rust "
